@@ -8,6 +8,7 @@ mod util;
 mod s_dhcpwire;
 mod s_pool;
 mod s_dhcp;
+mod s_acl;
 
 /// Virtual wall clock: when >= 0, every CLOCK_REALTIME read in this process (Rust std and C
 /// libraries alike) returns this many seconds. The symbol overrides libc's at static link time.
@@ -50,6 +51,8 @@ fn run_case(line: &str) -> String {
         "bflag" => s_dhcpwire::bflag(args),
         "pool" => s_pool::history(args),
         "dhcp" => s_dhcp::history(args),
+        "acl" => s_acl::check(args),
+        "leasejson" => s_acl::leasejson(args),
         _ => format!("bad-suite:{}", suite),
     }));
     match r {
